@@ -29,6 +29,20 @@ Theorem every_covered_operation_refines : forall now o d s,
   covered o = true -> step_ok now o d -> Inv d -> R now d s -> step_refines now o d s.
 Proof. exact all_step_refines_closed. Qed.
 
+(* From the empty database the conditions on stored scores (numbers, never -0) need not be assumed:
+   they are invariants of every operation (C05_stored_scores_stay_numbers_under_every_operation,
+   C05_stored_scores_never_negative_zero).  side_ok' keeps what reachability does not give: Go-typed
+   arguments, a legal random choice, no position collision on push / insert and positions below
+   2^1022, fewer than 2^63 sorted-set rows for rank deletion, exact sums for SUM aggregation. *)
+Theorem every_history_from_the_empty_database_refines_the_keyspace : forall h t0,
+  side_ok' h empty_db -> times_ok t0 h ->
+  Forall2 (fun (po : (Z * op) * out) (so : out) => out_equiv (snd (fst po)) (snd po) so)
+          (combine h (snd (run_impl h empty_db))) (snd (run_spec h []))
+  /\ (forall tl, (match rev h with (t, _) :: _ => t | [] => t0 end) = tl ->
+        R tl (fst (run_impl h empty_db)) (fst (run_spec h [])))
+  /\ Inv (fst (run_impl h empty_db)).
+Proof. exact history_from_empty_refines. Qed.
+
 (* the premises are met by a history that touches every family, from the empty database *)
 Theorem the_premises_are_satisfiable :
   side_ok demo_history empty_db /\ times_ok 0 demo_history /\ Inv empty_db.
@@ -36,4 +50,5 @@ Proof. exact demo_history_side_ok. Qed.
 
 Print Assumptions every_history_over_all_types_refines_the_keyspace.
 Print Assumptions every_covered_operation_refines.
+Print Assumptions every_history_from_the_empty_database_refines_the_keyspace.
 Print Assumptions the_premises_are_satisfiable.
